@@ -59,6 +59,8 @@ class Member:
         self.pup = None
         self.dead = False
         self.stopped = False
+        self.told_stopped = False    # the shell's latest report about this process says "stopped"
+        self.cont_untold = False     # continued from outside after that; the shell has not been told yet
 
 
 class Job:
@@ -261,7 +263,9 @@ class C07Runner:
             raise Violation("tty_not_shell_at_prompt", "at the prompt the terminal's foreground group is %s, not the shell's" % (
                 who[0] if who else "a foreign group"))
         if self.fg is not None:
-            running = [m for m in self.fg.live() if self.truth_state(m) not in ("T", "Z", "X")]
+            # a member whose stop the shell was told about and whose later continuation (from outside) it has not
+            # been told about yet is, for all the shell can know, stopped: returning is legitimate
+            running = [m for m in self.fg.live() if self.truth_state(m) not in ("T", "Z", "X") and not m.cont_untold]
             if running:
                 raise Violation("prompt_while_fg_running", "the prompt returned while %s of the foreground job is running" % running[0].name)
             # the foreground job stopped (or ended): it is a background/stopped job from now on
@@ -391,6 +395,10 @@ class C07Runner:
                 sim.probe("fg_with_failing_terminal_handover")
                 sh.type_line(line)
                 return True
+            for m in job.live():
+                # the shell continues the group itself: it knows
+                m.told_stopped = False
+                m.cont_untold = False
             if k == "fg":
                 self.fg = job
                 self.fg_by_builtin = True
@@ -748,6 +756,8 @@ class C07Runner:
         if sig == signal.SIGCONT:
             sim.wait_state(m.pid, "RSDZX", "continue")
             m.stopped = False
+            if m.told_stopped:
+                m.cont_untold = True
         elif sig == signal.SIGSTOP:
             sim.wait_state(m.pid, "TZX", "stop")
             m.stopped = True
@@ -761,6 +771,10 @@ class C07Runner:
         group vanishes although the job is alive -- a later `fg` cannot hand the terminal over"""
         job = self.job_by_slot(op["job"])
         if job is None or job is self.fg or len(job.live()) != 1 or job.live()[0].pup is None:
+            return
+        if getattr(job, "helper_pid", None):
+            # with a grandchild still inside the group the group does not vanish: `fg` legitimately hands the
+            # terminal over and waits for the member that left -- not the situation this step is about
             return
         m = job.live()[0]
         if self.truth_state(m) in ("T", "Z", "X") or m.pid == job.gid and False:
@@ -778,6 +792,11 @@ class C07Runner:
             self.wait_dirty = False
             return
         self.sim.ev("wait=", kind, self.sim.names.get(pid, "?"))
+        for j in self.jobs:
+            for m in j.members:
+                if m.pid == pid:
+                    m.told_stopped = kind == "stopped"
+                    m.cont_untold = False
 
     # ------------------------------------------------------------------ end of session
     def finish(self):
